@@ -168,6 +168,7 @@ def build(tier, seed):
 
 
 def _eval(case, parse_frames, sm, seed):
+    UNOBSERVED.clear()
     rng = random.Random(engine.subseed("C17", seed, case["id"]))
     bad = []
     classes = set()
